@@ -151,3 +151,13 @@ s_http_request(void * addrs, const char * method, const char * path, int nh, con
 	return (http_request(addrs, &R, maxrlen, h_callback, NULL));
 }
 void s_http_cancel(void * h) { http_request_cancel(h); }
+
+/* AES key objects and AES-CTR streams (the start-up self-test of the accelerated path allocates too). */
+#include "crypto_aes.h"
+#include "crypto_aesctr.h"
+void * s_aes_expand(const uint8_t * key, size_t len) { return (crypto_aes_key_expand(key, len)); }
+void s_aes_block(const void * k, const uint8_t in[16], uint8_t out[16]) { crypto_aes_encrypt_block(in, out, k); }
+void s_aes_free(void * k) { crypto_aes_key_free(k); }
+void * s_ctr_init(const void * k, uint64_t nonce) { return (crypto_aesctr_init(k, nonce)); }
+void s_ctr_stream(void * st, const uint8_t * in, uint8_t * out, size_t len) { crypto_aesctr_stream(st, in, out, len); }
+void s_ctr_free(void * st) { crypto_aesctr_free(st); }
